@@ -107,7 +107,19 @@ def stale_only_cleanup(P, k, genf, gen_call, c2, fsreach, hit_blocks=None):
             rv = st.get("rv")
             if rv and st["lhs"]["l"] == 0 and not st["lhs"].get("p") and rv["k"] == "aggr" and rv.get("variant") == "Ok":
                 n_ret += 1
-                t = genf.describe_origin(genf.origin(rv["ops"][0]), short=True, deep=8)
+                oo = genf.origin(rv["ops"][0])
+                # `Some(list)` built on the hit path by a helper and unwrapped by the caller: of the alternatives that reach the unwrapping only
+                # those with a payload count (the payload-less ones cannot be the value whose field is read)
+                if oo[0] == "proj" and oo[1][0] == "multi" and any(pj.startswith("as:") for pj in oo[2]):
+                    want_v = [pj for pj in oo[2] if pj.startswith("as:")][0][3:]
+                    alts = [a_ for a_ in oo[1][2] if a_[0] == "aggr" and a_[1].get("variant") == want_v and a_[1].get("ops")]
+                    others = [a_ for a_ in oo[1][2] if not (a_[0] == "aggr" and a_[1].get("variant") != want_v and not a_[1].get("ops")) and a_ not in alts]
+                    if alts and not others:
+                        t = " | ".join(genf.describe_origin(genf.origin(a_[1]["ops"][0]), short=True, deep=8) for a_ in alts)
+                        if all("get_generation_metadata" in genf.describe_origin(genf.origin(a_[1]["ops"][0]), short=True, deep=8) for a_ in alts):
+                            continue
+                        return False, "on the hit path the function returns %s, not the directory enumeration" % t[:80]
+                t = genf.describe_origin(oo, short=True, deep=8)
                 if "get_generation_metadata" not in t:
                     return False, "on the hit path the function returns %s, not the directory enumeration" % t[:80]
     if n_ret == 0:
@@ -357,7 +369,7 @@ def check(ctx):
         if len(assigns) != 1:
             r3.bad(V(r3.id, rg.id, "force-assignments:%d" % len(assigns), "expected exactly one assignment of config.force from the CLI flag, found %d" % len(assigns)))
         for b, st in assigns:
-            conds = rg.must_conditions(b)
+            conds = rg.must_conditions(b, sequencing=False)
             rv = st["rv"]
             if rv["k"] == "use":
                 oo = rg.origin(rv["op"])
